@@ -25,6 +25,7 @@ CONSTANTS MaxFun,            \* evaluation budget
           RhoLevels,         \* rho takes levels RhoLevels (= rhobeg) down to rhoend
           RhoendScaleDrop,   \* 1: restarts.rhoend_scale < 1 (rhoend drops one level per restart), 0: scale = 1
           MaxRuns,           \* state constraint on the number of runs
+          NdirsInit,         \* growing.ndirs_initial (0 = npt-1, i.e. a full initial set); with fewer directions the set GROWS by one point per iteration
           WithNoise,         \* noise.quit_on_noise_level: "all values within noise level" may end the run / trigger a restart at the top of an iteration
           RegSteps,          \* regression.num_extra_steps: geometry steps on the furthest points after a successful trust-region step
           WithAuto, WithFalseSuccess,   \* include the auto-detected-restart / false-success exits (switched off for the driven replay, which cannot script them)
@@ -60,6 +61,10 @@ NoModel == [slots |-> <<>>, kopt |-> 1, save |-> NoSave, jacen |-> <<>>, fc |-> 
 \* controller.py:92-99
 Restartable(e) == \/ e.flag \in {"tr_increase", "linalg", "slow", "eval_error", "auto"}
                   \/ (e.flag = "success" /\ e.msg # "small")
+
+\* growing phase (solver.py:244, 269-282): the initial set has fewer points than npt; "finished growing" latches once npt points are present
+NdirsOfRun == IF NdirsInit = 0 THEN npt - 1 ELSE MinI(NdirsInit + nruns, npt - 1)     \* restarts.hard.increase_ndirs_initial_amt = 1 (default)
+Growing == Len(mdl.slots) < mdl.numpts
 
 Init == /\ pc = "x0eval" /\ nf = 0 /\ nx = 0 /\ nruns = 0 /\ mdl = NoModel /\ rho = RhoLevels /\ rhoendL = 0 /\ rhoendC = 0
         /\ softLSR = 0 /\ softLastFopt = 0 /\ hardLSR = 0 /\ best = NoBest /\ exitInfo = NoExit /\ ptval = <<>> /\ ptns = <<>>
@@ -134,7 +139,7 @@ EvalInto(k, after) == EvalIntoR(k, after, 1..MaxSamples)
 \* initialise_coordinate_directions (controller.py:288-352): one point per step
 InitPoint ==
   /\ pc = "init"
-  /\ IF Len(mdl.slots) >= npt
+  /\ IF Len(mdl.slots) >= NdirsOfRun + 1
      THEN pc' = "loop" /\ NoEval /\ UNCHANGED <<mdl, exitInfo, nruns>>
      ELSE EvalIntoR(Len(mdl.slots) + 1, "init", {phaseReq})
   /\ UNCHANGED <<ret, restarts, phaseReq, reg>> /\ UNCHANGED Radii /\ UNCHANGED Hard /\ UNCHANGED Soft
@@ -150,7 +155,7 @@ Interpolate ==
 
 \* Noise-level exit check at the top of an iteration (solver.py:284-303): a verdict of the numerical test all_values_within_noise_level
 NoiseExit ==
-  /\ pc = "loop" /\ WithNoise
+  /\ pc = "loop" /\ WithNoise /\ ~Growing
   /\ RestartOrExit(Exit("success", "noise"))
   /\ NoEval /\ UNCHANGED <<mdl, ret, restarts, phaseReq, reg>> /\ UNCHANGED Radii /\ UNCHANGED Hard /\ UNCHANGED Soft
 
@@ -160,15 +165,17 @@ ReduceRho == rho' = IF rho - rhoendC <= 1 THEN rhoendC ELSE rho - 1
 \* Safety step (solver.py:443-532)
 Safety ==
   /\ pc = "safety"
-  /\ \/ \* not done with rho and a far point exists: geometry step on it
-        /\ \E k \in 1..Len(mdl.slots) : k # mdl.kopt /\ EvalInto(k, "loop")
+  /\ \/ \* while growing (solver.py:366-442): a new direction is evaluated and APPENDED; nothing else happens in a safety step
+        /\ Growing /\ EvalInto(Len(mdl.slots) + 1, "loop") /\ UNCHANGED Radii
+     \/ \* not done with rho and a far point exists: geometry step on it
+        /\ ~Growing /\ \E k \in 1..Len(mdl.slots) : k # mdl.kopt /\ EvalInto(k, "loop")
         /\ UNCHANGED Radii
      \/ \* geometry step failed in the kernel (singular)
-        /\ RestartOrExit(Exit("linalg", "geom")) /\ NoEval /\ UNCHANGED mdl /\ UNCHANGED Radii
+        /\ ~Growing /\ RestartOrExit(Exit("linalg", "geom")) /\ NoEval /\ UNCHANGED mdl /\ UNCHANGED Radii
      \/ \* reduce rho
-        /\ rho > rhoendL /\ ReduceRho /\ pc' = "loop" /\ NoEval /\ UNCHANGED <<mdl, exitInfo, nruns, rhoendL, rhoendC>>
+        /\ ~Growing /\ rho > rhoendL /\ ReduceRho /\ pc' = "loop" /\ NoEval /\ UNCHANGED <<mdl, exitInfo, nruns, rhoendL, rhoendC>>
      \/ \* rho = rhoend: soft restart, or evaluate xnew as a final check and stop
-        /\ ~(rho > rhoendL) /\ UNCHANGED Radii
+        /\ ~Growing /\ ~(rho > rhoendL) /\ UNCHANGED Radii
         /\ IF UseRestarts /\ SoftRestarts
            THEN pc' = "softadmit" /\ NoEval /\ UNCHANGED <<mdl, exitInfo, nruns>>
            ELSE \E req \in 1..MaxSamples : \E v \in EvalVals :
@@ -196,13 +203,15 @@ TRStep ==
                    /\ mdl' = IF DefTrialLost THEN mdl ELSE SavePointM(mdl, v, Ran(req), nx + 1)
                    /\ RestartOrExit(Exit("tr_increase", "tr_increase"))
                 \/ \* ratio > 0 iff the new value beats the incumbent; slot chosen by the kernel (the incumbent only when ratio > 0)
-                   \E k \in 1..Len(mdl.slots) :
+                   \E k \in 1..(Len(mdl.slots) + 1) :
+                     /\ (Growing <=> k = Len(mdl.slots) + 1)      \* while growing (full-rank interpolation) the trial point is appended, never replaces
                      /\ (k = mdl.kopt => Lt(v, ObjOpt(mdl)))
                      /\ mdl' = IntoSlot(mdl, k, v1, v, Ran(req), nx + 1)
-                     /\ \/ Lt(v, ObjOpt(mdl)) /\ pc' = (IF RegSteps > 0 THEN "regress" ELSE "loop") /\ UNCHANGED <<exitInfo, nruns>>     \* successful step (ratio >= eta1)
-                        \/ Lt(v, ObjOpt(mdl)) /\ RestartOrExit(Exit("slow", "slow"))
-                        \/ WithFalseSuccess /\ Lt(v, ObjOpt(mdl)) /\ mdl.save.has /\ Lt(mdl.save.obj, v) /\ RunExit(Exit("false_success", "false_success"))
-                        \/ ~Lt(v, ObjOpt(mdl)) /\ pc' = "trtail" /\ UNCHANGED <<exitInfo, nruns>>
+                     /\ \/ Growing /\ pc' = "loop" /\ UNCHANGED <<exitInfo, nruns>>     \* growing: next iteration whatever the ratio (no geometry steps, no rho update)
+                        \/ ~Growing /\ Lt(v, ObjOpt(mdl)) /\ pc' = (IF RegSteps > 0 THEN "regress" ELSE "loop") /\ UNCHANGED <<exitInfo, nruns>>     \* successful step (ratio >= eta1)
+                        \/ ~Growing /\ Lt(v, ObjOpt(mdl)) /\ RestartOrExit(Exit("slow", "slow"))
+                        \/ WithFalseSuccess /\ ~Growing /\ Lt(v, ObjOpt(mdl)) /\ mdl.save.has /\ Lt(mdl.save.obj, v) /\ RunExit(Exit("false_success", "false_success"))
+                        \/ ~Growing /\ ~Lt(v, ObjOpt(mdl)) /\ pc' = "trtail" /\ UNCHANGED <<exitInfo, nruns>>
   \* entering the regression phase: the furthest-point list is computed once, from the incumbent AFTER the update; one sample request for the phase
   /\ reg' = IF pc' = "regress" THEN [left |-> MinI(RegSteps, Len(mdl'.slots) - 1), done |-> {mdl'.kopt}] ELSE reg
   /\ phaseReq' \in (IF pc' = "regress" THEN 1..MaxSamples ELSE {phaseReq})
